@@ -112,12 +112,14 @@ DFinish(valRet, eqB, sized) ==
 
 \* C04/C11 through the shipped downloader (a black box): what it requested from the server and what it left.
 \* X = chunks whose extents were requested (body ranges must be unions of whole chunk extents), d = disk facts
-\* before the run, usable = available from the local source
-DToolRun(status, eqB, X, wholeChunks, d, usable, sized) ==
+\* before the run, usable = available from the local source.  full = the server ignores Range altogether and
+\* answers every request with the whole file: then only the result counts (what is transferred is the server's choice)
+DToolRun(status, eqB, X, wholeChunks, d, usable, sized, full) ==
     /\ status = 0 => eqB                                                   \* success => identical to B
-    /\ wholeChunks
-    /\ \A k \in 1..Len(X) : ~d[X[k]] /\ ~usable[X[k]]                      \* nothing present or locally available is fetched
-    /\ status = 0 => \A c \in 1..Len(d) : (~d[c] /\ ~usable[c] /\ sized[c]) => c \in SetOf(X)
+    /\ ~full =>
+        /\ wholeChunks
+        /\ \A k \in 1..Len(X) : ~d[X[k]] /\ ~usable[X[k]]                      \* nothing present or locally available is fetched
+        /\ status = 0 => \A c \in 1..Len(d) : (~d[c] /\ ~usable[c] /\ sized[c]) => c \in SetOf(X)
     /\ UNCHANGED dvars
 
 \* C11: the process dies; only the disk survives
